@@ -2,8 +2,17 @@ package sim
 
 import (
 	"encoding/json"
+	"sort"
+	"strings"
 	"time"
 )
+
+// Signature is what minimisation preserves: the violation class plus the further classes it establishes.
+func (v *Violation) Signature() string {
+	also := append([]string{}, v.Also...)
+	sort.Strings(also)
+	return v.Class + "|" + strings.Join(uniq(also), ",")
+}
 
 func cloneTrace(tr *Trace) *Trace {
 	b, _ := json.Marshal(tr)
@@ -27,7 +36,7 @@ func RunTrace(tr *Trace, keepConcrete bool) (*Violation, *Engine) {
 
 // Shrink minimises a failing trace: drop steps (ddmin), simplify the plan, zero the raw choice values,
 // keeping only candidates that still fail with the same violation class.
-func Shrink(tr *Trace, class string, maxRuns int, deadline time.Time) *Trace {
+func Shrink(tr *Trace, sig string, maxRuns int, deadline time.Time) *Trace {
 	runs := 0
 	fails := func(c *Trace) bool {
 		if runs >= maxRuns || time.Now().After(deadline) {
@@ -35,7 +44,7 @@ func Shrink(tr *Trace, class string, maxRuns int, deadline time.Time) *Trace {
 		}
 		runs++
 		v, _ := RunTrace(c, false)
-		return v != nil && v.Class == class
+		return v != nil && v.Signature() == sig
 	}
 	cur := cloneTrace(tr)
 	// 1. cut after the failing step
